@@ -380,3 +380,52 @@ func ruleR14d(c *Ctx) {
 	c.floor("R14d", "cuts of the namespace name in visitNamespace", 1, cuts)
 	_ = nsplit
 }
+
+// R14e: the generator emits what the registry holds now. Bundle's file watcher replaces the registry's
+// contents in place (*reg = *registry), and files can be added after NewGenerator, so the file node that
+// Generator.WriteFile hands to Write is taken from a range over gen.registry.SoyFiles in that call, never
+// from a table built earlier.
+func ruleR14e(c *Ctx) {
+	p := c.pkg("soyjs")
+	fd := c.mustFunc("soyjs", "Generator.WriteFile")
+	if p == nil || fd == nil {
+		return
+	}
+	info := p.TypesInfo
+	// range variables over <recv>.registry.SoyFiles
+	live := map[types.Object]bool{}
+	ast.Inspect(fd.Body, func(x ast.Node) bool {
+		rs, ok := x.(*ast.RangeStmt)
+		if !ok || rs.Value == nil {
+			return true
+		}
+		if fv := fieldOf(rs.X, info); fv != nil && fv.Name() == "SoyFiles" {
+			if inner, ok := ast.Unparen(rs.X).(*ast.SelectorExpr); ok {
+				if rf := fieldOf(inner.X, info); rf != nil && rf.Name() == "registry" {
+					if id, ok := rs.Value.(*ast.Ident); ok && info.Defs[id] != nil {
+						live[info.Defs[id]] = true
+					}
+				}
+			}
+		}
+		return true
+	})
+	n := 0
+	ast.Inspect(fd.Body, func(x ast.Node) bool {
+		call, ok := x.(*ast.CallExpr)
+		if !ok {
+			return true
+		}
+		cal := calleeFunc(call, info)
+		if cal == nil || cal.Name() != "Write" || cal.Pkg() != p.Types || len(call.Args) < 2 {
+			return true
+		}
+		n++
+		id, isID := ast.Unparen(call.Args[1]).(*ast.Ident)
+		c.check(isID && live[info.Uses[id]], "R14e", "soyjs.Generator.WriteFile file-node-source#"+itoa(n), call.Pos(),
+			"the file node comes from the registry's current file list",
+			"the file node handed to Write ("+exprKey(call.Args[1])+") does not come from a range over gen.registry.SoyFiles in this call: after the registry is updated in place the generator keeps emitting the old templates, and files added later are not found")
+		return true
+	})
+	c.floor("R14e", "Write calls in Generator.WriteFile", 1, n)
+}
